@@ -515,8 +515,11 @@ example :
     let b1 : Block := ⟨1, 0, 0, 100000, []⟩
     let b2 : Block := ⟨2, 1, 1, 100010, [a]⟩
     let b3 : Block := ⟨3, 2, 2, 100020, [c]⟩
-    ∃ g1 g2 g3, (newTxGuard 100000).saveBlock b1 = .ok g1 ∧ g1.saveBlock b2 = .ok g2 ∧
-      g2.delOldBlocks 100010 = .ok g3 ∧ b2 ∈ g3.cache ∧ verifyTxs true g3 b3 = .ok true ∧
+    ∃ g3, (do
+        let g1 ← (match (newTxGuard 100000).saveBlock b1 with | .ok g => some g | _ => none)
+        let g2 ← (match g1.saveBlock b2 with | .ok g => some g | _ => none)
+        match g2.delOldBlocks 100010 with | .ok g => some g | _ => none) = some g3 ∧
+      b2 ∈ g3.cache ∧ verifyTxs true g3 b3 = .ok true ∧
       b2.txs.all (fun tx => tx.validAt b2.time) = true := by
   decide
 
